@@ -110,7 +110,7 @@ class Func:
 
     def loc(self, node: Optional[ast.AST] = None) -> str:
         n = node if node is not None else self.node
-        return f"{self.module.relpath}:{getattr(n, 'lineno', 0)}"
+        return f"{self.module.relpath}:{getattr(n, '_src_lineno', getattr(n, 'lineno', 0))}"
 
     def __hash__(self):
         return hash(self.qualname)
@@ -233,6 +233,7 @@ class Program:
         if self.normalize:
             from .normalize import inline_new_helpers
             self.inlined, self.not_inlined = inline_new_helpers({m.name: m.tree for m in self.modules.values()})
+        self.absorbed = {h for _caller, h in self.inlined}       # new helpers whose bodies are analysed at their call sites
         for mod in self.modules.values():
             _set_parents(mod.tree)
         self.digest = h.hexdigest()[:16]
